@@ -73,6 +73,9 @@ class AccessMixin:
             if owner is None:
                 if isinstance(obj.cls, ClassVal) and any(isinstance(b, (External, Unknown)) for c in obj.cls.mro() for b in c.bases):
                     return Unknown("attribute %s of instance with external base" % name)
+                ga, gowner = obj.cls.lookup("__getattr__")
+                if isinstance(ga, FuncVal) and not name.startswith("__"):
+                    return self.call_function(ga, [obj, name], {}, node, frame)
                 return self.attr_error(obj, name, node, frame)
             if isinstance(v, FuncVal):
                 if v.kind == "staticmethod":
@@ -95,7 +98,11 @@ class AccessMixin:
                 if isinstance(v, FuncVal):
                     return BoundMethod(v, obj)
             if name == "__name__":
-                return "Enum"
+                return getattr(obj, "type_name", None) or "Enum"
+            if obj.cls is not None and not name.startswith("__"):
+                ga, owner = obj.cls.lookup("__getattr__")        # a metaclass fallback for names the class does not have
+                if isinstance(ga, FuncVal):
+                    return self.call_function(ga, [obj, name], {}, node, frame)
             return self.attr_error(obj, name, node, frame)
         if isinstance(obj, External):
             hook = getattr(self, "external_attr_hook", None)
